@@ -305,3 +305,24 @@ pub fn wkt(g: &G) -> String {
         G::Coll(v) => format!("GEOMETRYCOLLECTION({})", v.iter().map(wkt).collect::<Vec<_>>().join(",")),
     }
 }
+
+/// Like `with_concrete!` but only for the listed variants; others give `$else`.
+#[macro_export]
+macro_rules! with_concrete_only {
+    ($g:expr, [$($v:ident),*], $x:ident => $body:expr, else $else:expr) => {
+        match $g {
+            $( geo::Geometry::$v($x) => $body, )*
+            #[allow(unreachable_patterns)]
+            _ => $else,
+        }
+    };
+}
+
+/// `Into<Geometry>` for all ten types (geo-types has no From<GeometryCollection> for Geometry)
+pub trait IntoGeom<T: geo::CoordNum> {
+    fn into_geom(self) -> geo::Geometry<T>;
+}
+macro_rules! into_geom {
+    ($($v:ident),*) => { $( impl<T: geo::CoordNum> IntoGeom<T> for geo::$v<T> { fn into_geom(self) -> geo::Geometry<T> { geo::Geometry::$v(self) } } )* };
+}
+into_geom!(Point, Line, LineString, Polygon, MultiPoint, MultiLineString, MultiPolygon, Rect, Triangle, GeometryCollection);
